@@ -81,10 +81,17 @@ def containment(
 
 def conditions(tier):
     conds = []
-    K = 6 if tier == "quick" else 10
+    K = 4 if tier == "quick" else 7
     tmo = 600 if tier == "quick" else 3000
     shapes = ["indep2", "chain3", "fork3", "join3", "mixed3"] if tier == "quick" else ["indep2", "chain3", "fork3", "join3", "mixed3", "diamond4", "chain4", "join4", "two2"]
     for sh in shapes:
         conds.append({"name": f"containment/{sh}", "func": "containment", "shard": {"shape": sh, "K": K}, "timeout": tmo})
     conds.append({"name": "containment-token/join3", "func": "containment", "shard": {"shape": "join3", "K": K, "token": [1, 1, 0]}, "timeout": tmo})
-    return conds
+    heavy = ("indep2", "join3", "indep3", "mixed3", "diamond4", "fork3", "chain4", "join4", "two2")
+    out = []
+    for c in conds:
+        if c["shard"].get("shape") in heavy:
+            out.extend(schedlib.with_prefixes(c, 2 if tier == "quick" else 3))
+        else:
+            out.append(c)
+    return out
